@@ -63,6 +63,12 @@ theorem stepL_self_join (hn : n = self) (h : l.joinTs = none) :
   unfold stepL Loc.pendLeft Loc.pendJoin joinTracked
   split <;> grind [Ev.none, isLeftOf, isStartLeft]
 
+/-- the local node is never tracked as leaving and never reported as left -/
+theorem stepL_self_left (hn : n = self) (h : l.leftTs = none) :
+    (stepL g ts op fire n l).1.leftTs = none ∧ (stepL g ts op fire n l).2.left = none := by
+  unfold stepL Loc.pendLeft Loc.pendJoin
+  split <;> grind [Ev.none, isLeftOf, isStartLeft]
+
 /-- a node with no pending departure stays so, and is not reported as left, unless the call is a
     left notification for it -/
 theorem stepL_no_left (h : l.leftTs = none) (hop : isLeftOf op n = false) :
